@@ -227,3 +227,85 @@ func VerifHarness_C32_Defragment() {
 	hSameSpans(out, back, "defragmented-backward")
 	sym.Reach("defragmented")
 }
+
+// hSeekOps: SeekGE / SeekLT with a symbolic key, followed by a Next or Prev,
+// land on the span the (already validated) forward list prescribes: SeekGE(k)
+// on the first span whose end is beyond k, SeekLT(k) on the last span that
+// starts before k.
+func hSeekOps(it FragmentIterator, list []Span, tag string) {
+	k := sym.U8(tag + "-seek")
+	var idx int64
+	var sp *Span
+	var err error
+	if sym.Bool(tag + "-seek-ge") {
+		sp, err = it.SeekGE([]byte{k})
+		for i := range list {
+			idx += sym.Ite(list[i].End[0] <= k, int64(1), int64(0))
+		}
+	} else {
+		sp, err = it.SeekLT([]byte{k})
+		idx = -1
+		for i := range list {
+			idx += sym.Ite(list[i].Start[0] < k, int64(1), int64(0))
+		}
+	}
+	check := func() {
+		sym.Assert(err == nil, tag+"-seek-error")
+		sym.Assert((sp != nil) == sym.And(idx >= 0, idx < int64(len(list))), tag+"-seek-validity")
+		if sp != nil {
+			for i := range list {
+				sym.Assert(sym.Implies(idx == int64(i), sym.And(sp.Start[0] == list[i].Start[0], sym.And(sp.End[0] == list[i].End[0], len(sp.Keys) == len(list[i].Keys)))), tag+"-seek-position")
+			}
+		}
+	}
+	check()
+	if sp == nil {
+		return
+	}
+	if sym.Bool(tag + "-then-next") {
+		sp, err = it.Next()
+		idx++
+	} else {
+		sp, err = it.Prev()
+		idx--
+	}
+	check()
+}
+
+// VerifHarness_C32_TruncateSeek / DefragmentSeek: seeks on the truncating and
+// defragmenting iterators agree with their own forward scans (which the
+// Truncate / Defragment harnesses compare with the input coverage).
+func VerifHarness_C32_TruncateSeek() {
+	in := hInputSpans(2, 1)
+	frags := hFragment(in)
+	lo, hi := sym.U8("lo"), sym.U8("hi")
+	sym.Assume(lo < hi)
+	cmp := base.DefaultComparer.Compare
+	bounds := base.UserKeyBoundsEndExclusive([]byte{lo}, []byte{hi})
+	list := hCollect(Truncate(cmp, NewIter(cmp, frags), bounds), true)
+	hSeekOps(Truncate(cmp, NewIter(cmp, frags), bounds), list, "truncated")
+	sym.Reach("truncate-seek")
+}
+
+func VerifHarness_C32_DefragmentSeek() {
+	in := hInputSpans(2, 1)
+	frags := hFragment(in)
+	var split []Span
+	for _, f := range frags {
+		if sym.Bool("split") {
+			m := sym.U8("at")
+			sym.Assume(sym.And(f.Start[0] < m, m < f.End[0]))
+			split = append(split, Span{Start: f.Start, End: []byte{m}, Keys: f.Keys}, Span{Start: []byte{m}, End: f.End, Keys: f.Keys})
+		} else {
+			split = append(split, f)
+		}
+	}
+	mk := func() FragmentIterator {
+		var it DefragmentingIter
+		it.Init(base.DefaultComparer, NewIter(base.DefaultComparer.Compare, split), DefragmentInternal, StaticDefragmentReducer, new(DefragmentingBuffers))
+		return &it
+	}
+	list := hCollect(mk(), true)
+	hSeekOps(mk(), list, "defragmented")
+	sym.Reach("defragment-seek")
+}
